@@ -76,7 +76,9 @@ def frame_obligations(run, table, prop_label):
 
 
 TREES = ['var a = 1, b = [a, 2];', 'function f(x, y) { var z = x + y; return function () { return z; }; }',
-         'switch (a) { case 1: if (b) { c; } default: d; }\ntry { e; } catch (e) { f(e); }', 'x = {a: 1, get b() { return 2; }};']
+         'switch (a) { case 1: if (b) { c; } default: d; }\ntry { e; } catch (e) { f(e); }', 'x = {a: 1, get b() { return 2; }};',
+         # catch parameters and free names that share spellings across trees (state of one catch scope must not reach another)
+         'function g(h) { try { h(); } catch (err) { log(err); } }', 'function k(m) { try { m(); } catch (e2) { notify(err, e2); } }']
 
 
 def bounded(run, tier):
